@@ -113,3 +113,70 @@ Theorem C08_stored_id_points_at_cluster d n root ccs c :
   tag_at (setup_layout d n root ccs) (S (stored_id n root c)) = Some (TMax c).
 Proof. exact (stored_id_points_at_cluster_thm d n root ccs c). Qed.
 Print Assumptions C08_stored_id_points_at_cluster.
+
+(* Fixed-rectangle clusters (RectangularCluster(rectIndex), cluster.cpp:300-329; model gen_fixed_rect tied by the `gen` and
+   `vars` correspondences of checks/c08.py): the generated equalities make the cluster box the container rectangle, so with the
+   members' containment constraints every member (inflated by the padding) lies inside the container RECTANGLE; without the
+   last equality that fails. *)
+Theorem C08_fixed_rect_cluster_sound v d cv ri rects :
+  Forall (sat v) (gen_fixed_rect d cv ri rects) <->
+  box_is_rect d (v cv) (v (S cv)) (moved d (nth ri rects rect0) (v ri)).
+Proof. exact (fixed_rect_cluster_sound_thm v d cv ri rects). Qed.
+Print Assumptions C08_fixed_rect_cluster_sound.
+
+Theorem C08_fixed_rect_cluster_eps eps v d cv ri rects :
+  Forall (sat_eps eps v) (gen_fixed_rect d cv ri rects) <->
+  box_is_rect_eps eps d (v cv) (v (S cv)) (moved d (nth ri rects rect0) (v ri)).
+Proof. exact (fixed_rect_cluster_eps_thm eps v d cv ri rects). Qed.
+Print Assumptions C08_fixed_rect_cluster_eps.
+
+Theorem C08_members_inside_fixed_rect v d cv ri pad members rects children :
+  Forall (sat v) (gen_fixed_rect d cv ri rects) ->
+  Forall (sat v) (gen_containment d cv pad members rects children) ->
+  forall id, In id members ->
+    inside_rect_d d 0 pad (moved d (nth ri rects rect0) (v ri)) (moved d (nth id rects rect0) (v id)).
+Proof. exact (members_inside_fixed_rect_thm v d cv ri pad members rects children). Qed.
+Print Assumptions C08_members_inside_fixed_rect.
+
+Theorem C08_members_inside_fixed_rect_eps eps v d cv ri pad members rects children :
+  Forall (sat_eps eps v) (gen_fixed_rect d cv ri rects) ->
+  Forall (sat_eps eps v) (gen_containment d cv pad members rects children) ->
+  forall id, In id members ->
+    inside_rect_d d (2 * eps) pad (moved d (nth ri rects rect0) (v ri)) (moved d (nth id rects rect0) (v id)).
+Proof. exact (members_inside_fixed_rect_eps_thm eps v d cv ri pad members rects children). Qed.
+Print Assumptions C08_members_inside_fixed_rect_eps.
+
+Theorem C08_members_inside_fixed_rect_2d eps vx vy cv ri pad members rects chx chy :
+  (ri < length rects)%nat -> (forall m, In m members -> (m < length rects)%nat) ->
+  Forall (sat_eps eps vx) (gen_fixed_rect DX cv ri rects) ->
+  Forall (sat_eps eps vy) (gen_fixed_rect DY cv ri rects) ->
+  Forall (sat_eps eps vx) (gen_containment DX cv pad members rects chx) ->
+  Forall (sat_eps eps vy) (gen_containment DY cv pad members rects chy) ->
+  members_inside_rect (2 * eps) pad (move_all DY (move_all DX rects vx) vy) ri members.
+Proof. exact (members_inside_fixed_rect_2d_thm eps vx vy cv ri pad members rects chx chy). Qed.
+Print Assumptions C08_members_inside_fixed_rect_2d.
+
+Theorem C08_fixed_rect_weak_max_refuted :
+  exists v d cv ri pad members rects,
+    Forall (sat v) (gen_fixed_rect_weak_max d cv ri rects ++ gen_containment d cv pad members rects []) /\
+    exists id, In id members /\
+      ~ inside_rect_d d 0 pad (moved d (nth ri rects rect0) (v ri)) (moved d (nth id rects rect0) (v id)) /\
+      rmax d (moved d (nth ri rects rect0) (v ri)) <= rmin d (moved d (nth id rects rect0) (v id)).
+Proof. exact fixed_rect_weak_max_refuted. Qed.
+Print Assumptions C08_fixed_rect_weak_max_refuted.
+
+Theorem C08_inside_rect_checker_correct t pad rects ci members :
+  members_inside_rectb t pad rects ci members = true <-> members_inside_rect t pad rects ci members.
+Proof. exact (members_inside_rectb_correct t pad rects ci members). Qed.
+Print Assumptions C08_inside_rect_checker_correct.
+
+Theorem C08_fixed_rect_constraints_bind d n root ccs fixed rects c cs :
+  In (c, cs) (fixed_rect_constraints d n root fixed rects) ->
+  In (TMin c) (stored_layout n root) ->
+  exists ri half, In (c, ri) fixed /\ half == rlen d (nth ri rects rect0) / 2 /\
+    cs = [mkSep (stored_id n root c) ri half true; mkSep ri (S (stored_id n root c)) half true] /\
+    tag_at (setup_layout d n root ccs) (stored_id n root c) = Some (TMin c) /\
+    tag_at (setup_layout d n root ccs) (S (stored_id n root c)) = Some (TMax c) /\
+    ((ri < n)%nat -> tag_at (setup_layout d n root ccs) ri = Some (TNode ri)).
+Proof. exact (fixed_rect_constraints_bind_thm d n root ccs fixed rects c cs). Qed.
+Print Assumptions C08_fixed_rect_constraints_bind.
